@@ -274,6 +274,20 @@ func httpDo(port int, post bool, args []string) (httpReply, error) {
 		}
 		req = "GET /" + strings.Join(parts, "+") + " HTTP/1.1\r\nHost: x\r\n\r\n"
 	}
+	return httpExchange(c, req)
+}
+
+// httpGetPath issues GET <path> (already escaped) on a fresh connection: the vector-tile route /key/z/x/y.mvt
+func httpGetPath(port int, path string) (httpReply, error) {
+	c, err := dialRaw(port)
+	if err != nil {
+		return httpReply{}, err
+	}
+	defer c.close()
+	return httpExchange(c, "GET "+path+" HTTP/1.1\r\nHost: x\r\n\r\n")
+}
+
+func httpExchange(c *rconn, req string) (httpReply, error) {
 	if err := c.write([]byte(req)); err != nil {
 		return httpReply{}, err
 	}
